@@ -335,7 +335,7 @@ func genHang(c *ctx) {
 		res      e2eResult
 	}
 	var cases []*hc
-	kinds := []string{"silence", "discard-one", "close-stdin", "source-shrinks", "source-unreadable", "dest-readonly", "silence-pause-resume", "cut-mid-write"}
+	kinds := []string{"silence", "discard-one", "close-stdin", "source-shrinks", "source-unreadable", "dest-readonly", "silence-pause-resume", "cut-mid-write", "dest-full"}
 	nb := c.pick(6, 16)
 	const timeout = 2
 	for b := 0; b < nb; b++ {
@@ -359,7 +359,10 @@ func genHang(c *ctx) {
 			} else {
 				h.idx = lo
 			}
-			h.desc = fmt.Sprintf("%s at %s write #%d/%d :: %s", h.kind, []string{"c2s", "s2c"}[h.dir], h.idx, counts[h.dir], describeCfg(cfg))
+			if h.kind == "dest-full" {
+				h.cfg.overwrite = true // the existing name (a link to /dev/full) is opened for writing
+			}
+			h.desc = fmt.Sprintf("%s at %s write #%d/%d :: %s", h.kind, []string{"c2s", "s2c"}[h.dir], h.idx, counts[h.dir], describeCfg(h.cfg))
 			cases = append(cases, h)
 		}
 	}
@@ -376,6 +379,16 @@ func genHang(c *ctx) {
 		os.MkdirAll(dest, 0755)
 		cfg := h.cfg
 		dir, idx := h.dir, h.idx
+		if h.kind == "dest-full" {
+			// the destination of the largest file accepts no byte (ENOSPC on every write): with
+			// overwrite on, the existing name - a link to /dev/full - is opened for writing
+			if cfg.directory {
+				os.MkdirAll(filepath.Join(dest, "tree", "sub"), 0755)
+				os.Symlink("/dev/full", filepath.Join(dest, "tree", "one.bin"))
+			} else {
+				os.Symlink("/dev/full", filepath.Join(dest, "f1.bin"))
+			}
+		}
 		var run *e2eRun
 		var runMu sync.Mutex
 		cfg.onStart = func(r *e2eRun) { runMu.Lock(); run = r; runMu.Unlock() }
@@ -484,6 +497,7 @@ func genHang(c *ctx) {
 		c.note(true, h.desc+" => "+h.outcome+fmt.Sprintf(" (%.2fs)", h.res.dur.Seconds()))
 		c.count("outcome:" + h.outcome)
 		c.count("kind:" + h.kind)
+		c.count("kind-outcome:" + h.kind + ":" + h.outcome)
 		if len(h.bad) > 0 {
 			key := "hang:" + h.kind + ":" + strings.SplitN(h.bad[0], ":", 2)[0]
 			c.violate(key, "a fault did not end the transfer with an error on both sides in time", h.desc+" :: "+strings.Join(h.bad, "; "))
